@@ -379,8 +379,12 @@ def compare_ep(impl_ok, model_rows, select=None, rel=Fraction(2, 100000), ratio_
     except (KeyError, TypeError):
         totb = Fraction(0)
     rer_extra = Fraction(0)
+    noise = rel * scale + Fraction(1, 1000000)
+    # a total primary energy within rounding noise of zero (large flows cancelling): the RER values are ratios of noise, in f32 as
+    # in any arithmetic of finite precision; they are not compared (C13 is stated for totals above rounding noise)
+    rer_ill = totb <= 64 * noise
     if totb > 0:
-        rer_extra = 8 * (rel * scale + Fraction(1, 1000000)) * (1 + abs(fi.get("rer", Fraction(0)))) / totb
+        rer_extra = 8 * noise * (1 + abs(fi.get("rer", Fraction(0)))) / totb
     bad = []
     keys = set(fi) | set(model_rows)
     for k in sorted(keys):
@@ -400,6 +404,8 @@ def compare_ep(impl_ok, model_rows, select=None, rel=Fraction(2, 100000), ratio_
         a = Fraction(0) if a is None else a
         b = Fraction(0) if b is None else b
         if k.startswith("rer"):
+            if rer_ill:
+                continue
             tol = ratio_abs + rer_extra
         elif RATIO_RE.search(k):
             tol = ratio_abs
